@@ -1,13 +1,19 @@
 """C45 - command-line arguments reach commands unchanged.
 
 Decided (structural clauses, narrow):
-  R45.1 escape pairing: every substitution quote() applies to the value (`str.replace(a, b)`) has an inverse in
-        unquote().   (Today: '"' -> r'\\x22' has none - known finding F-C45, the FIXME in the test-suite.)
+  R45.1 escape pairing: every substitution quote() applies to the value has an inverse in unquote().  Semantic: quote() is
+        interpreted on probe values holding both quote characters (+ one protected character); the segments that differ between the
+        value and the delimited text are the substitutions (however they are written: replace(), split/join, a helper, a temporary),
+        the segments that still differ after unquote() are not inverted.  The finding is keyed by the substitution's *values*
+        (`replace('"', '\\x22')`), not by the code that performs it.
+        (Today: '"' -> r'\\x22' has no inverse - known finding F-C45, the FIXME in the test-suite.)
   R45.2 the character tables agree: the lexer's whitespace class + both quote characters == the characters NOT in the
         bare-word class (partition), and every one of them makes quote() add quotes; so a string quote() leaves bare is one
-        bare token.  (Quoting MORE than the lexer needs is harmless and only noted.)  The lexer's classes are taken from a *model of the
-        token alternatives* of ``command_lexer.expr`` (ZeroOrMore(A | B | ...).leave_whitespace(); each alternative a
-        pyparsing Word(chars) / CharsNotIn(chars) / Regex(pattern) - literal or named at module level): the whitespace,
+        bare token.  (Quoting MORE than the lexer needs is harmless and only noted.)  The lexer's classes are taken from the
+        *interpreted* ``command_lexer.expr``: the module constant is evaluated from its AST (pyint) with ``pyparsing`` bound to the
+        model of props/_helpers_pp.py - literals, module constants (WHITESPACE, QUOTE_CHARS), string concatenation, helper
+        functions, named sub-expressions, method chains or separate ``expr.leave_whitespace()`` statements all give the same element
+        tree (ZeroOrMore / [...] of MatchFirst alternatives Word / CharsNotIn / Regex / White ..., whitespace not skipped): the whitespace,
         bare-word and quoted alternatives are recognised by what they match (" ", "a", a quoted string), and their character
         sets are read off by matching every candidate character (0..127, Latin-1 and Unicode spaces, letters), so a class
         written as a character list and the same class written as a regex are the same to the rule, while a class that
@@ -40,20 +46,17 @@ import ast
 import re
 
 from .. import rx
-from ..core import AnalysisError
-from ..core import norm
 from ..model import attr_chain
-from ..model import last_attr
-from ..model import walk_in_order
 from ..selftest import Mutant
 
 PROP = "C45"
 REG = {
     "strength": "narrow",
-    "technique": "escape-pair agreement, character-table agreement over a model of the lexer's token classes, regex language inclusion, AST interpretation of the execute path",
+    "technique": "escape-pair agreement (quote/unquote interpreted on probe values), character-table agreement over the interpreted lexer expression (pyparsing model), "
+    "regex language inclusion, AST interpretation of the execute path",
     "claim": "quote()'s substitutions are inverted by unquote() (one known finding), the quoting trigger set equals the lexer's separator sets, "
     "quote()'s output forms are single lexer tokens, execute() drops only whitespace tokens.",
-    "note": "pyparsing (Regex, Word, CharsNotIn, ZeroOrMore) is trusted.",
+    "note": "pyparsing (Regex, Word, CharsNotIn, White, MatchFirst, ZeroOrMore, leave_whitespace, parse_with_tabs) is trusted as modelled in props/_helpers_pp.py.",
 }
 
 LEX = "mitmproxy/command_lexer.py"
@@ -73,108 +76,60 @@ class _Alt:
         self.kind, self.label, self.node, self.match, self.pattern, self.flags = kind, label, node, match, pattern, flags
 
 
-def _run_in(chars, negate):
-    def match(text, pos):
-        end = pos
-        while end < len(text) and ((text[end] in chars) != negate):
-            end += 1
-        return end if end > pos else None
-
-    return match
-
-
 def _lexer_model(ctx, mod):
-    """The token alternatives of ``command_lexer.expr`` in MatchFirst order."""
+    """``command_lexer.expr`` as the repository code builds it: the module constant is INTERPRETED (pyint) with ``pyparsing`` bound to the
+    model of props/_helpers_pp.py, so literals, module constants (WHITESPACE, QUOTE_CHARS ...), string concatenation, helper functions and
+    named sub-expressions all evaluate to the same element tree.  -> (the element, its token alternatives in MatchFirst order)"""
+    from ._helpers_pp import El
+    from ._helpers_pp import PPInterp
+
     vals = mod.assigns("expr")
     ctx.require(bool(vals), "command_lexer.expr vanished")
-    top = vals[-1]
-    rep = [c for c in ast.walk(top) if isinstance(c, ast.Call) and last_attr(c.func) in ("ZeroOrMore", "OneOrMore")]
-    ctx.require(len(rep) == 1 and len(rep[0].args) == 1 and not rep[0].keywords, "lexer expr: not one ZeroOrMore(<alternatives>)")
-    ctx.require(any(isinstance(c, ast.Call) and last_attr(c.func) in ("leave_whitespace", "leaveWhitespace") for c in ast.walk(top)),
-                "lexer expr: no leave_whitespace() - whitespace skipping of pyparsing is not modelled")
+    it = PPInterp(ctx.model, trusted_modules={"re": re})
+    top = it.modconst(mod, "expr", 0)
+    ctx.require(isinstance(top, El), f"command_lexer.expr does not evaluate to a pyparsing expression: {top!r}")
+    for st in mod.tree.body:  # module-level statements applied to the expression afterwards: expr.parse_with_tabs()
+        if isinstance(st, ast.Expr) and isinstance(st.value, ast.Call) and attr_chain(st.value.func).split(".")[0] == "expr":
+            it.ev(st.value, {}, mod, 0)
+    rep = top
+    while rep.kind in ("Group", "Suppress", "Forward") and rep.expr is not None and not rep.actions:
+        rep = rep.expr
+    ctx.require(rep.kind in ("ZeroOrMore", "OneOrMore") and not rep.actions and not top.actions, f"lexer expr: not one ZeroOrMore(<alternatives>): {top!r}")
 
-    def resolve(n, depth=0):
-        if isinstance(n, ast.Name) and mod.assigns(n.id) and depth < 4:
-            ctx.require(len(mod.assigns(n.id)) == 1, f"lexer: {n.id} is assigned more than once")
-            return resolve(mod.assigns(n.id)[0], depth + 1)
-        return n
+    def flat(e):
+        if e.kind == "MatchFirst" and not e.actions:
+            return [x for c in e.exprs for x in flat(c)]
+        return [e]
 
-    def flat(n):
-        r = resolve(n)
-        if isinstance(r, ast.BinOp) and isinstance(r.op, ast.BitOr):
-            return flat(r.left) + flat(r.right)
-        if isinstance(r, ast.Call) and last_attr(r.func) == "MatchFirst" and len(r.args) == 1 and isinstance(r.args[0], (ast.List, ast.Tuple)):
-            return [x for e in r.args[0].elts for x in flat(e)]
-        return [(n, r)]
-
-    def text_of(node, what):
-        r = resolve(node)
-        v = _str_const(r)
-        ctx.require(v is not None, f"lexer: {what} is not a string literal: {norm(node)}")
-        return v
-
-    def flags_of(nodes):
-        fl = 0
-        for a in nodes:
-            for x in ast.walk(a):
-                if isinstance(x, ast.Attribute) and isinstance(x.value, ast.Name) and x.value.id == "re" and x.attr.isupper():
-                    fl |= int(getattr(re, x.attr, 0))
-                elif isinstance(x, ast.Constant) and isinstance(x.value, int) and not isinstance(x.value, bool):
-                    fl |= x.value
-        return fl
-
+    node = vals[-1]
     alts = []
-    for ref, call in flat(rep[0].args[0]):
-        label = ref.id if isinstance(ref, ast.Name) else norm(ref)[:60]
-        ctx.require(isinstance(call, ast.Call), f"lexer alternative not modelled: {norm(call)[:80]}")
-        kind = last_attr(call.func)
-        if kind in ("Word", "CharsNotIn"):
-            ctx.require(len(call.args) == 1 and not call.keywords, f"lexer: {kind} with more than the character set is not modelled: {norm(call)[:80]}")
-            chars = text_of(call.args[0], f"{kind} character set")
-            alts.append(_Alt(kind, label, call, _run_in(chars, kind == "CharsNotIn")))
-        elif kind == "Regex":
-            ctx.require(len(call.args) >= 1 and all(k.arg == "flags" for k in call.keywords), f"lexer: Regex arguments not modelled: {norm(call)[:80]}")
-            a0 = resolve(call.args[0])
-            if isinstance(a0, ast.Call) and norm(a0.func) == "re.compile":
-                ctx.require(len(a0.args) >= 1, "lexer: re.compile() without pattern")
-                pat, fl = text_of(a0.args[0], "regex pattern"), flags_of(list(a0.args[1:]) + [k.value for k in a0.keywords])
-            else:
-                pat, fl = text_of(a0, "regex pattern"), flags_of(list(call.args[1:]) + [k.value for k in call.keywords])
-            try:
-                cre = re.compile(pat, fl)
-            except re.error as e:
-                raise AnalysisError(f"lexer: regex of {label} does not compile: {e}")
-
-            def match(text, pos, cre=cre):
-                mm = cre.match(text, pos)
-                return mm.end() if mm else None
-
-            alts.append(_Alt("Regex", label, call, match, pat, fl))
-        else:
-            raise AnalysisError(f"lexer alternative not modelled: {norm(call)[:80]}")
+    for e in flat(rep.expr):
+        ctx.require(not e.skipWhitespace or not e.callPreparse, "lexer expr: an alternative skips leading whitespace (no leave_whitespace()) - token classes with implicit whitespace skipping are not modelled")
+        ctx.require(not e.actions, "lexer expr: an alternative has a parse action (tokens would no longer be the matched text)")
+        alts.append(_Alt(e.kind, e.kind, node, e.matches_at, e.a.get("pattern") if e.kind == "Regex" else None, e.a.get("flags", 0) if e.kind == "Regex" else 0))
     ctx.require(len(alts) >= 3, f"lexer: only {len(alts)} token alternatives found")
-    return alts
+    return top, alts
 
 
-def _tokens(alts, text):
-    """pyparsing ZeroOrMore(MatchFirst(alts)).leave_whitespace().parse_string(text, parse_all=True): list of tokens, None = ParseException."""
-    out, pos = [], 0
-    while pos < len(text):
-        for a in alts:
-            end = a.match(text, pos)
-            if end is not None:
-                if end == pos:
-                    raise AnalysisError(f"lexer: alternative {a.label} matches the empty string (repetition of empty tokens is not modelled)")
-                out.append(text[pos:end])
-                pos = end
-                break
-        else:
-            return None
-    return out
+def _tokens(lexer, text):
+    """expr.parse_string(text, parse_all=True) on the model: list of tokens, None = ParseException."""
+    from ._helpers_pp import ParseException
+
+    try:
+        return list(lexer.parse_string(text, parse_all=True))
+    except ParseException:
+        return None
+
+
+def _changes(v, w):
+    """[(a, b)]: the segments of v that were replaced on the way to w"""
+    import difflib
+
+    return [(v[i1:i2], w[j1:j2]) for tag, i1, i2, j1, j2 in difflib.SequenceMatcher(None, v, w, autojunk=False).get_opcodes() if tag != "equal"]
 
 
 def check(ctx):
-    ctx.rule("R45.1", "every replace() in quote has an inverse in unquote")
+    ctx.rule("R45.1", "every substitution quote() applies to a value has an inverse in unquote()")
     ctx.rule("R45.2", "quote trigger characters == lexer whitespace + quotes == CharsNotIn set")
     ctx.rule("R45.3", "quote()'s output forms are single quoted-string tokens; unquote strips one matching pair")
     ctx.rule("R45.4", "execute drops only Space tokens and unquotes the rest")
@@ -185,57 +140,22 @@ def check(ctx):
     u = ctx.func(LEX, "unquote")
     mod = m.module(LEX)
 
-    # ---- R45.6  library contract: ParserElement.parse_string() replaces every TAB by spaces before parsing unless parse_with_tabs()
-    # was called on the expression.  quote() protects a TAB by quoting the value, so without it a quoted argument containing a TAB
-    # reaches the command altered (F-C45tab).  Decided on the construction of `expr` and on every parse_string call site.
-    top_expr = mod.assigns("expr")
-    ctx.require(bool(top_expr), "command_lexer.expr vanished")
-    keeps_tabs = any(isinstance(c, ast.Call) and last_attr(c.func) in ("parse_with_tabs", "parseWithTabs") for c in ast.walk(top_expr[-1]))
-    for st in mod.tree.body:  # also accepted as a separate statement: expr.parse_with_tabs()
-        if isinstance(st, ast.Expr) and isinstance(st.value, ast.Call) and last_attr(st.value.func) in ("parse_with_tabs", "parseWithTabs") and norm(st.value.func).startswith("expr."):
-            keeps_tabs = True
-    matches_tab = any(isinstance(c, ast.Constant) and isinstance(c.value, str) and "\t" in c.value for c in ast.walk(top_expr[-1])) or "\\s" in ast.unparse(top_expr[-1])
-    ctx.check(keeps_tabs or not matches_tab, "R45.6", (LEX, "<module>", top_expr[-1]), "expr ... .parse_with_tabs()",
-              "the lexer's grammar matches TAB characters but the expression is parsed with pyparsing's default tab expansion: a TAB inside a quoted argument reaches the command as spaces",
-              desc="command_lexer.expr is parsed with tabs kept")
-    ctx.expect_instances("R45.6", 1)
-
-    # ---- R45.1
-    subs = []
-    for c in walk_in_order(q):
-        if isinstance(c, ast.Call) and isinstance(c.func, ast.Attribute) and c.func.attr == "replace" and len(c.args) == 2:
-            a, b = _str_const(c.args[0]), _str_const(c.args[1])
-            ctx.require(a is not None and b is not None, f"quote: replace() with non-literal operands: {norm(c)}")
-            subs.append((a, b, c))
-    inverse = set()
-    for c in walk_in_order(u):
-        if isinstance(c, ast.Call) and isinstance(c.func, ast.Attribute) and c.func.attr == "replace" and len(c.args) == 2:
-            a, b = _str_const(c.args[0]), _str_const(c.args[1])
-            if a is not None and b is not None:
-                inverse.add((a, b))
-    decodes = any(isinstance(c, ast.Call) and last_attr(c.func) in ("escape_decode", "unicode_escape_decode", "literal_eval") for c in walk_in_order(u))
-    ctx.require(len(subs) <= 4, "quote: more substitutions than the rule was confirmed on")
-    if not subs:
-        ctx.ok("R45.1", "quote applies no substitution")
-    for a, b, c in subs:
-        ctx.check((b, a) in inverse or decodes, "R45.1", (LEX, "quote", c), f"replace({a!r}, {b!r})", f"unquote() never turns {b!r} back into {a!r}: a value containing {a!r} (and the other quote character) reaches the command altered",
-                  desc=f"replace({a!r},{b!r}) inverted")
-
-    # ---- R45.2 / R45.3: quote() and unquote() are pure string functions: interpret their AST (pyint, `re` trusted)
+    # ---- quote() and unquote() are pure string functions: interpret their AST (pyint, `re` trusted)
     import re as _re
 
     from ..pyint import Interp
+    from ..pyint import NullLog
     from ..pyint import Raised
 
     def run(fname, arg):
-        it = Interp(m, trusted_modules={"re": _re})
+        it = Interp(m, trusted_modules={"re": _re, "logging": NullLog()})
         try:
             return it.call(LEX, fname, arg)
         except Raised as r:
             return f"<raises {r.name}>"
 
     # the lexer's token classes, recognised by what they match (model of the pyparsing expression)
-    alts = _lexer_model(ctx, mod)
+    lexer, alts = _lexer_model(ctx, mod)
     quoted_alts = [a for a in alts if a.match('"x"', 0) == 3 and a.match("'x'", 0) == 3]
     ws_alts = [a for a in alts if a not in quoted_alts and a.match(" ", 0) == 1]
     bare_alts = [a for a in alts if a not in quoted_alts and a.match("a", 0) == 1]
@@ -256,6 +176,43 @@ def check(ctx):
     # which characters make quote() add quotes?  (semantic: interpret quote on 'a<c>b' for every candidate character)
     trig = {c for c in candidates if run("quote", f"a{c}b") != f"a{c}b"}
     ctx.cells += 3 * len(candidates)
+
+    # ---- R45.6  library contract: ParserElement.parse_string() replaces every TAB by spaces before parsing unless parse_with_tabs()
+    # was called on the expression.  quote() protects a TAB by quoting the value, so without it a quoted argument containing a TAB
+    # reaches the command altered (F-C45tab).  Decided on the interpreted expression object: its keep-tabs flag and whether any of its
+    # token classes can match a TAB.
+    matches_tab = any(a.match(t, 0) == len(t) for a in alts for t in ("\t", "'\t'", '"\t"', "a\tb"))
+    ctx.check(lexer.keepTabs or not matches_tab, "R45.6", (LEX, "<module>", mod.assigns("expr")[-1]), "expr ... .parse_with_tabs()",
+              "the lexer's grammar matches TAB characters but the expression is parsed with pyparsing's default tab expansion: a TAB inside a quoted argument reaches the command as spaces",
+              desc="command_lexer.expr is parsed with tabs kept")
+    ctx.expect_instances("R45.6", 1)
+
+    # ---- R45.1  which substitutions does quote() apply to a value, and does unquote() invert them?  Semantic: quote() is interpreted on
+    # probe values holding both quote characters (the only case in which a value cannot be delimited as it is) plus one protected
+    # character; what changed between the value and the delimited text are the substitutions; what still differs after unquote() is not inverted.
+    applied: dict = {}
+    uninverted: dict = {}
+    probes = ["p\"q'r", "p'q\"r", "\"'", "p\"q'r\\s"] + [f"p\"q'r{c}s" for c in sorted(trig - {'"', "'"})]
+    for v in probes:
+        out = run("quote", v)
+        ctx.cells += 1
+        if not (isinstance(out, str) and len(out) >= 2 and out[0] == out[-1] and out[0] in "'\""):
+            continue  # not a delimited form: R45.3 reports it
+        for ab in _changes(v, out[1:-1]):
+            applied.setdefault(ab, v)
+        back = run("unquote", out)
+        if isinstance(back, str) and not back.startswith("<raises"):
+            for ab in _changes(v, back):
+                uninverted.setdefault(ab, (v, out, back))
+    ctx.require(len(applied) <= 6, f"quote: more substitutions than the rule was confirmed on: {sorted(applied)}")
+    if not applied:
+        ctx.ok("R45.1", "quote applies no substitution")
+    for (a, b), v in sorted(applied.items()):
+        ctx.check((a, b) not in uninverted, "R45.1", (LEX, "quote", q), f"replace({a!r}, {b!r})", f"unquote() never turns {b!r} back into {a!r}: a value containing {a!r} (and the other quote character) reaches the command altered",
+                  desc=f"replace({a!r},{b!r}) inverted")
+    for (a, b), (v, out, back) in sorted(uninverted.items()):
+        if (a, b) not in applied:
+            ctx.fail("R45.1", (LEX, "unquote", u), f"unquote(quote(v)) turns {a!r} into {b!r}", f"quote({v!r}) = {out!r} but unquote() gives {back!r}")
     # necessary direction only: every character that ends a bare word must make quote() add quotes.  Quoting more than the lexer needs
     # (e.g. every str.isspace character) is harmless - the quoted form is one token (R45.3) and is unquoted again (R45.5).
     ctx.check(excl <= trig, "R45.2", (LEX, "quote", q), "every character that ends a bare word in the lexer makes quote() add quotes",
@@ -302,7 +259,7 @@ def check(ctx):
     ctx.guard(_execute_rule, ctx)
 
     # ---- R45.5: the whole path from the command line to the argument types, interpreted
-    ctx.guard(_pipeline_rule, ctx, alts, run, candidates, trig)
+    ctx.guard(_pipeline_rule, ctx, lexer, run, candidates, trig)
     ctx.expect_instances("R45.1", 1)
     ctx.expect_instances("R45.2", 3)
     ctx.expect_instances("R45.3", 5)
@@ -336,6 +293,7 @@ def _harness(ctx):
     from ..pyint import ClassRef
     from ..pyint import Func
     from ..pyint import Interp
+    from ..pyint import NullLog
     from ..pyint import Rec
 
     m = ctx.model
@@ -349,7 +307,7 @@ def _harness(ctx):
     received: list = []
     ident = Func(m.module(CMD), ast.parse("lambda manager, t, s: s").body[0].value)
     argtype = Rec("ArgType", parse=ident)
-    it = Interp(m, trusted_modules={"inspect": inspect})
+    it = Interp(m, trusted_modules={"inspect": inspect, "logging": NullLog()})
     it.overrides[(CMD, "mitmproxy")] = _types.SimpleNamespace(types=("$module", tm))
     it.overrides[(TYPES, "CommandTypes")] = {str: argtype, marker("Cmd"): argtype, marker("CmdArgs"): argtype}
     mgr = Rec("CommandManager", _impl=(CMD, "CommandManager"), master=None)
@@ -381,21 +339,12 @@ def _execute_rule(ctx):
               desc=f"execute: {len(want)} non-space tokens of every type unquoted once, {len(toks) - len(want)} Space tokens dropped")
 
 
-def _execute(ctx, alts, line):
+def _execute(ctx, lexer, line):
     """Interpret CommandManager.execute(line) -> the strings that reach the argument types (identity stub), or '<raises X>'."""
-    import types as _types
-
     from ..pyint import Raised
 
     it, mgr, received, _ = _harness(ctx)
-
-    def parse_string(text, parse_all=True, **kw):
-        toks = _tokens(alts, text)
-        if toks is None:
-            raise ValueError("ParseException")  # becomes an interpreted exception
-        return toks
-
-    it.overrides[(LEX, "expr")] = _types.SimpleNamespace(parse_string=parse_string, parseString=parse_string)
+    it.overrides[(LEX, "expr")] = lexer  # the interpreted expression object: parse_string() of the pyparsing model (a ParseException becomes an interpreted exception)
     try:
         it.call(CMD, "CommandManager.execute", mgr, line)
     except Raised as r:
@@ -405,7 +354,7 @@ def _execute(ctx, alts, line):
     return list(received[0])
 
 
-def _pipeline_rule(ctx, alts, run, candidates, trig):
+def _pipeline_rule(ctx, lexer, run, candidates, trig):
     for qual in ("CommandManager.execute", "CommandManager.parse_partial", "CommandManager.call_strings", "Command.call", "Command.prepare_args"):
         ctx.func(CMD, qual)
     pa = ctx.func(CMD, "parsearg")
@@ -420,13 +369,13 @@ def _pipeline_rule(ctx, alts, run, candidates, trig):
         for v in group:
             qv = run("quote", v)
             ctx.require(isinstance(qv, str), f"quote({v!r}) -> {qv!r}")
-            got = _execute(ctx, alts, f"show {qv} tail")
+            got = _execute(ctx, lexer, f"show {qv} tail")
             ctx.cells += 1
             if got != [v, "tail"]:
                 bad.append((v, qv, got))
     # several arguments on one line: split between the arguments only
     many = ["plain", "with space", "", "it's", 'say "hi"', "'x'", "t\tab", "end"]
-    got = _execute(ctx, alts, "show " + "  ".join(run("quote", v) for v in many))
+    got = _execute(ctx, lexer, "show " + "  ".join(run("quote", v) for v in many))
     ctx.cells += 1
     if got != many:
         bad_a.append((many, "(one line)", got))
